@@ -184,3 +184,25 @@ def drivers(c):
     c.let('d', d)
     c.call((d, 'get_status'))
     c.ensure('default-needs-resending', 'd.needs_resending is True')
+
+
+@contract('C10', 'drivers.reliable-links', ['cflib.crtp.usbdriver:UsbDriver.__init__', 'cflib.crtp.tcpdriver:TcpDriver.__init__',
+                                          'cflib.crtp.serialdriver:SerialDriver.__init__', 'cflib.crtp.radiodriver:RadioDriver.__init__'],
+          clause='on links that guarantee delivery no retransmission happens: usb, tcp and serial links declare needs_resending False; the radio '
+                 'link starts as needing retries (until safelink is confirmed, see C01 negotiation)')
+def reliable_links(c):
+    which = c.choice('driver', ['cflib.crtp.usbdriver:UsbDriver', 'cflib.crtp.tcpdriver:TcpDriver', 'cflib.crtp.serialdriver:SerialDriver',
+                                'cflib.crtp.radiodriver:RadioDriver'])
+    d = c.new(which)
+    c.let('d', d)
+    c.let('is_radio', which.endswith('RadioDriver'))
+    c.call((d, 'get_name'))
+    c.ensure('declared-reliability', 'd.needs_resending is is_radio')
+    # and such a link never gets a retry timer
+    cf, link = fresh_cf(c, True)
+    c.set(cf, 'link', d)
+    c.set(d, 'send_packet', c.ext('drv_send'))
+    pk = packet(c)
+    exp = c.ints('exp', 2, 0, 255, kind='tuple')
+    c.call((cf, 'send_packet'), pk, exp)
+    c.ensure('timer-only-on-the-radio-link', "raised is None and len(sent('Timer')) == (1 if is_radio else 0) and len(sent('drv_send')) == 1")
